@@ -111,6 +111,7 @@ type Run struct {
 	outBuf     strings.Builder
 	Ops        []OpEvent
 	Panics     []string
+	HistHash   string
 }
 
 // FileRec is a file written by stage code.
@@ -441,7 +442,7 @@ func (r *Run) classWeight(t *vrt.Task) int {
 }
 
 func (r *Run) record(t *vrt.Task, of int) {
-	r.SchedHash = r.SchedHash*1099511628211 ^ hash64(t.Label, t.Kind, t.Detail)
+	r.SchedHash = r.SchedHash*1099511628211 ^ hash64(strings.ReplaceAll(t.Label, r.Root, "$ROOT"), t.Kind, strings.ReplaceAll(t.Detail, r.Root, "$ROOT"))
 	if r.Cfg.KeepTrace {
 		r.Trace = append(r.Trace, SchedEntry{Step: r.Steps, Task: t.Label, Kind: t.Kind,
 			Detail: t.Detail, Of: of, Time: time.Since(r.Start).String()})
@@ -487,6 +488,17 @@ func (r *Run) Execute() {
 	defer func() {
 		r.SimTime = time.Since(r.Start)
 		vrt.Deactivate()
+		// hash of the complete observable history of the run
+		h := ""
+		for _, ev := range vos.W.Events {
+			h = fmt.Sprintf("%x", hash64(h, fmt.Sprint(ev.Seq), strings.ReplaceAll(ev.Task, r.Root, "$ROOT"), ev.Op,
+				strings.ReplaceAll(ev.Path, r.Root, "$ROOT"), strings.ReplaceAll(ev.Path2, r.Root, "$ROOT"), fmt.Sprint(ev.Size), strings.ReplaceAll(ev.Err, r.Root, "$ROOT"), ev.Fault))
+		}
+		pe, _ := vproc.Snapshot()
+		for _, ev := range pe {
+			h = fmt.Sprintf("%x", hash64(h, fmt.Sprint(ev.Seq), ev.Kind, fmt.Sprint(ev.Pid), strings.ReplaceAll(ev.Name, r.Root, "$ROOT"), fmt.Sprint(ev.Code), ev.Detail))
+		}
+		r.HistHash = h
 	}()
 	r.startMrp()
 	restarts := 0
